@@ -154,7 +154,7 @@ def run_property(prop, spec, tier, seed, replay=None):
             p['rc'] = rc; p['log'].close(); running.remove(p)
 
     # collect
-    agg = {'evaluations': 0, 'nt_counted': 0, 'skipped': 0, 'classes': {}, 'campaigns': {}, 'notes': {}, 'samples': [], 'inconclusive': False}
+    agg = {'evaluations': 0, 'nt_counted': 0, 'skipped': 0, 'classes': {}, 'campaigns': {}, 'notes': {}, 'counters': {}, 'samples': [], 'inconclusive': False}
     failures = []   # (case path, how)
     hashfiles = []
     for p in procs:
@@ -179,6 +179,8 @@ def run_property(prop, spec, tier, seed, replay=None):
                 c = agg['campaigns'].setdefault(k, {'evaluations': 0, 'exhaustive': True, 'shards': 0})
                 c['evaluations'] += v['evaluations']; c['exhaustive'] &= v['exhaustive']; c['shards'] += 1
             agg['notes'].update(st['notes'])
+            for k, v in st.get('counters', {}).items():
+                agg['counters'][k] = agg['counters'].get(k, 0) + v
             for s in st['samples']:
                 camp = s.split(' ', 1)[0]
                 if sum(1 for x in agg['samples'] if x.split(' ', 1)[0] == camp) < 4 and len(agg['samples']) < 40:
@@ -240,7 +242,7 @@ def run_property(prop, spec, tier, seed, replay=None):
         'evaluations': agg['evaluations'], 'distinct_nontrivial': distinct_nt, 'rule': spec['rule'],
         'samples': agg['samples'] or ['(no non-trivial sample recorded)'],
         'campaigns': agg['campaigns'], 'classes': agg['classes'], 'skipped_outside_domain': agg['skipped'],
-        'notes': agg['notes'], 'inconclusive_remainder': agg['inconclusive'],
+        'notes': agg['notes'], 'counters': agg['counters'], 'inconclusive_remainder': agg['inconclusive'],
         'exhaustive': bool(agg['campaigns']) and all(c['exhaustive'] for c in agg['campaigns'].values()) and not agg['inconclusive'],
         'exhaustive_campaigns': sorted(k for k, c in agg['campaigns'].items() if c['exhaustive']),
         'build_s': round(bt, 2), 'unconfirmed_failures': unconfirmed,
